@@ -1270,13 +1270,24 @@ fn evaluate_in_subquery(left: &ArrayRef, right: &ArrayRef, negated: bool) -> Res
     use arrow::array::*;
 
     let num_rows = left.len();
-    let mut result = Vec::with_capacity(num_rows);
+    let mut result: Vec<Option<bool>> = Vec::with_capacity(num_rows);
+
+    // SQL three-valued IN: TRUE if some element equals the operand; otherwise
+    // UNKNOWN if the operand is NULL (and the set is not empty) or the set holds
+    // a NULL; otherwise FALSE. NOT IN is the three-valued negation of that.
+    let right_has_null = right.null_count() > 0;
 
     for i in 0..num_rows {
         let mut found = false;
 
+        if right.is_empty() {
+            // x IN {} is FALSE and x NOT IN {} is TRUE, also for a NULL x
+            result.push(Some(negated));
+            continue;
+        }
+
         if left.is_null(i) {
-            result.push(Some(false));
+            result.push(None);
             continue;
         }
 
@@ -1321,7 +1332,13 @@ fn evaluate_in_subquery(left: &ArrayRef, right: &ArrayRef, negated: bool) -> Res
             }
         }
 
-        result.push(Some(if negated { !found } else { found }));
+        result.push(if found {
+            Some(!negated)
+        } else if right_has_null {
+            None
+        } else {
+            Some(negated)
+        });
     }
 
     Ok(Arc::new(BooleanArray::from(result)))
